@@ -812,6 +812,11 @@ def r5_codes(program, rep, folder, fn, fl, cfg, inst):
                                                                    t[3]):
                 RC = t[3] if t[2] == OK else t[2]
         okret = RC is not None and (mk_cmp("In", RC, RETRY), False) in f
+        if RC is None:
+            raise AnalysisError("send_scp_burst: the fatal error is not "
+                                "raised under a comparison of the return "
+                                "code with 'ok' (e.g. the action is looked "
+                                "up in a table); that form is not analysed")
     rep.check(len(fat) == 1 and okret, "C06-R5", inst,
               "FatalReturnCodeError is raised exactly for a non-ok, "
               "non-retryable reply", construct="fatal raise condition",
@@ -832,7 +837,11 @@ def r5_codes(program, rep, folder, fn, fl, cfg, inst):
         # up to the next loop head / test node
         while stack:
             x = stack.pop()
-            if x.id in seen or x.kind in ("test", "join"):
+            if x.id in seen or x.kind in ("test", "join", "iter") or \
+                    getattr(x, "label", None) == "foriter":
+                # (the next test / the head of the enclosing loop, of either
+                # kind: taking the next element is not an effect of the
+                # branch)
                 continue
             seen.add(x.id)
             if fl.node_defs.get(x.id):
